@@ -147,7 +147,7 @@ Qed.
 Lemma prot_frame st : forall P P' ok x,
   stmt_prot st P = (Some P', ok) -> pmem x P = true -> ~ In x (assigned st) -> pmem x P' = true.
 Proof.
-  induction st as [| s1 IH1 s2 IH2 | y a | cs y g args | d y | c s1 IH1 s2 IH2 | c body IH | a | y ik j | cs d y xi ik m args | a er | cs y ye g args]; intros P P' ok x H Hx Hn; cbn in H, Hn.
+  induction st as [| s1 IH1 s2 IH2 | y a | cs y g args | d y | c s1 IH1 s2 IH2 | c body IH | a | y ik j | cs d y xi ik m args | a er | cs y ye g args | cs g args]; intros P P' ok x H Hx Hn; cbn in H, Hn.
   - inversion H; subst; auto.
   - destruct (stmt_prot s1 P) as [[P1|] ok1] eqn:E1; [|discriminate].
     destruct (stmt_prot s2 P1) as [o2 ok2] eqn:E2. inversion H; subst.
@@ -192,6 +192,7 @@ Proof.
       destruct (var_eqb z x) eqn:E; auto. apply var_eqb_eq in E. congruence. }
     destruct y as [y|], ye as [ye|]; cbn in Hn; auto;
       repeat (apply R; [|intros ->; apply Hn; cbn; auto]); auto.
+  - discriminate.
 Qed.
 
 Section Analysis.
@@ -221,7 +222,7 @@ Section Analysis.
     Pinv P e -> analyze ng ctr sp f fuel st e = Some r -> stmt_prot st P = (oP, true) ->
     safe (a_trig r) /\ forall e', a_env r = Some e' -> exists P', oP = Some P' /\ Pinv P' e'.
   Proof.
-    induction st as [| s1 IH1 s2 IH2 | y a | cs y g args | d y | c s1 IH1 s2 IH2 | c body IH | a | y ik j | cs d y xi ik m args | a er | cs y ye g args]; intros e r P oP HP Han Hs; cbn in Han, Hs.
+    induction st as [| s1 IH1 s2 IH2 | y a | cs y g args | d y | c s1 IH1 s2 IH2 | c body IH | a | y ik j | cs d y xi ik m args | a er | cs y ye g args | cs g args]; intros e r P oP HP Han Hs; cbn in Han, Hs.
     - inversion Han; inversion Hs; subst; cbn. split; [intros t []|]. intros e' He. inversion He; subst. eauto.
     - destruct (analyze ng ctr sp f fuel s1 e) as [r1|] eqn:E1; [|discriminate].
       destruct (stmt_prot s1 P) as [[P1|] ok1] eqn:F1.
@@ -307,6 +308,8 @@ Section Analysis.
       + apply Pinv_put_remove. apply Pinv_kill. exact H0.
       + apply Pinv_put_remove. apply Pinv_kill. exact H0.
       + exact H0.
+    - inversion Han; inversion Hs; subst; cbn. split; [|discriminate].
+      apply safe_app. split; [apply safe_args|]. intros t [<-|[]]. cbn. discriminate.
   Qed.
 End Analysis.
 
